@@ -84,7 +84,7 @@ Definition dec_int (p : prim) (l : list N) : option (Z * list N) :=
 Definition enc_int_doc (p : prim) (z : Z) : list N :=
   match int_width p with
   | Some (s, w) =>
-      if w =? 1 then [Z.to_N z]
+      if w =? 1 then [to_unsigned 8 z]
       else if s then venc (zz_enc z) else venc (Z.to_N z)
   | None => []
   end.
